@@ -967,6 +967,17 @@ theorem plainVar_notKeyword {n : String} (h : plainVar n = true) : isKeyword n =
 theorem plainRun_ne_us {n : String} (h : isPlainRun n.toList = true) : n ≠ "_" := by
   intro e; subst e; exact absurd h (by decide)
 
+/-- a plain run (`LETTER (LETTER | NUMBER)*`) has no underscore: as the index of a compound variable it is written bare -/
+theorem plainRun_no_us {cs : List Char} (h : isPlainRun cs = true) : cs.contains '_' = false := by
+  cases cs with
+  | nil => simp [isPlainRun] at h
+  | cons c tl =>
+    simp only [isPlainRun, Bool.and_eq_true, List.all_eq_true, Bool.or_eq_true] at h
+    simp only [List.contains_eq_mem, decide_eq_false_iff_not, List.mem_cons, not_or]
+    refine ⟨fun e => ?_, fun hm => ?_⟩
+    · have := h.1; rw [← e] at this; exact absurd this (by decide)
+    · rcases h.2 _ hm with h' | h' <;> exact absurd h' (by decide)
+
 theorem wfvar_of_printable {v : IterVar} (h : printableIterVar v = true) : WFx.WFvar v := by
   cases v with
   | single n =>
@@ -1034,7 +1045,9 @@ theorem coreIdx_wf : (es : List PExp) → coreIdx es = true → WFx.WFidx es
     simp only [WFx.WFidx]; exact ⟨h.1.1, coreIdx_wf es h.2⟩
   | .var i :: es, h => by
     simp only [coreIdx, Bool.and_eq_true] at h
-    simp only [WFx.WFidx]; exact coreIdx_wf es h.2
+    simp only [WFx.WFidx]
+    refine ⟨fun hc => ?_, coreIdx_wf es h.2⟩
+    rw [plainRun_no_us h.1] at hc; exact absurd hc (by decide)
   | .int v :: es, h => by
     simp only [coreIdx, Bool.and_eq_true] at h
     simp only [WFx.WFidx]; exact ⟨coreExp_wf _ h.1, coreIdx_wf es h.2⟩
